@@ -11,6 +11,8 @@
  *   N                nothing (an entry that is not instrumented)                    -> "N"
  *   STOP             tracing is being finished (as by a `finish` trigger in another thread): sets
  *                    MCOUNT_GFL_FINISH; the next exit hook tears the thread's shadow stack down    -> "STOP"
+ *   T <n>            the following operations are executed by thread n (0 = initial thread; each thread has
+ *                    its own slots and libmcount's own thread-local shadow stack)          (no output)
  *   Z                next case: clear all slots and the dummy slot (mtd.idx must be 0)  -> "Z"
  *   PE <k> <s>       plthook_entry(&slot[s], k, module, regs) on a fake module whose PLT symbol k is f<k>
  *                    (only in the build with -DC01_WITH_PLT)                        -> "PE <ret!=0> <errno_ok>"
@@ -26,6 +28,9 @@
  *   YMM <128 hex words> ymm0..15 before (4 words each, low first), then the clobber values; runs
  *                    save; clobber; restore on the 256-bit registers if the CPU has AVX, else on the xmm
  *                    registers (upper words then echo the clobber)              -> "YMM <avx> <64 hex words>"
+ *   YE <k> <s> <64 hex words>   like XE with the 256-bit registers ymm0..15 (AVX machines only): the libc
+ *                    stand-in overwrites them and ends with vzeroupper      -> "YE <ret> <errno_ok> <64 hex words after>"
+ *   YR <s> <64 hex words>       like XR with ymm0..15                        -> "YR <exits> <word> <errno_ok> <64 words>"
  *   XMM <64 hex words>  xmm0..15 before (lo hi ...), then the clobber values; runs
  *                    save; clobber; restore                                         -> "XMM <32 hex words>"
  *   QUIT
@@ -77,6 +82,18 @@ int clock_gettime(clockid_t id, struct timespec *ts)
 			     "pcmpeqd %%xmm15, %%xmm15\n" ::
 				     : "xmm0", "xmm1", "xmm2", "xmm3", "xmm4", "xmm5", "xmm6", "xmm7", "xmm8",
 				       "xmm9", "xmm10", "xmm11", "xmm12", "xmm13", "xmm14", "xmm15");
+	if (clobber_xmm == 3) /* AVX-512 machine: all of zmm0-7 written, then vzeroupper */
+		asm volatile("vpternlogd $0xff, %%zmm0, %%zmm0, %%zmm0\n vpternlogd $0xff, %%zmm1, %%zmm1, %%zmm1\n"
+			     "vpternlogd $0xff, %%zmm2, %%zmm2, %%zmm2\n vpternlogd $0xff, %%zmm3, %%zmm3, %%zmm3\n"
+			     "vpternlogd $0xff, %%zmm4, %%zmm4, %%zmm4\n vpternlogd $0xff, %%zmm5, %%zmm5, %%zmm5\n"
+			     "vpternlogd $0xff, %%zmm6, %%zmm6, %%zmm6\n vpternlogd $0xff, %%zmm7, %%zmm7, %%zmm7\n"
+			     "vzeroupper\n" ::: "memory");
+	if (clobber_xmm == 2) /* AVX machine: what libc's AVX2 string functions leave: upper halves cleared */
+		asm volatile("vpcmpeqd %%ymm0, %%ymm0, %%ymm0\n vpcmpeqd %%ymm1, %%ymm1, %%ymm1\n"
+			     "vpcmpeqd %%ymm2, %%ymm2, %%ymm2\n vpcmpeqd %%ymm3, %%ymm3, %%ymm3\n"
+			     "vpcmpeqd %%ymm4, %%ymm4, %%ymm4\n vpcmpeqd %%ymm5, %%ymm5, %%ymm5\n"
+			     "vpcmpeqd %%ymm6, %%ymm6, %%ymm6\n vpcmpeqd %%ymm7, %%ymm7, %%ymm7\n"
+			     "vzeroupper\n" ::: "memory");
 	return 0;
 }
 
@@ -133,8 +150,10 @@ static void setup_fake_module(void)
 #endif
 
 #define NSLOT 48
-static unsigned long slots[NSLOT];
+static __thread unsigned long slots[NSLOT]; /* every thread has its own stack */
 static int nshow = 16;
+static int reversed; /* slot s lives at slots[NSLOT - 1 - s]: deeper calls at lower addresses, as on a real stack */
+#define SLOT(s) (reversed ? &slots[NSLOT - 1 - ((s) % NSLOT)] : &slots[(s) % NSLOT])
 
 /* xmm0..15 := before; save(ctx); xmm0..15 := clobber; restore(ctx); after := xmm0..15 */
 void xmm_roundtrip(const uint64_t *before, const uint64_t *clobber, uint64_t *after, void *ctx);
@@ -183,6 +202,109 @@ asm(".text\n .globl call_with_xmm\n .type call_with_xmm,@function\n call_with_xm
     " pop %rbp\n pop %r14\n pop %r13\n pop %r12\n pop %rbx\n ret\n"
     " .size call_with_xmm, .-call_with_xmm\n");
 
+unsigned long call_with_xmm(const uint64_t *before, uint64_t *after, void *fn, long a1, long a2, long a3);
+unsigned long call_with_ymm(const uint64_t *before, uint64_t *after, void *fn, long a1, long a2, long a3);
+/* the same with the 512-bit registers (only called when the CPU has AVX-512F) */
+void zmm_roundtrip(const uint64_t *before, const uint64_t *clobber, uint64_t *after, void *ctx);
+#define LDZ(i, base) " vmovdqu64 " #i "*64(%" base "), %zmm" #i "\n"
+#define STZ(i, base) " vmovdqu64 %zmm" #i ", " #i "*64(%" base ")\n"
+asm(".text\n .globl zmm_roundtrip\n .type zmm_roundtrip,@function\n zmm_roundtrip:\n"
+    " push %rbx\n push %r12\n push %r13\n push %r14\n push %rbp\n"
+    " mov %rdi, %rbx\n mov %rsi, %r12\n mov %rdx, %r13\n mov %rcx, %r14\n"
+    X16(LDZ, "rbx")
+    " mov %r14, %rdi\n call mcount_save_arch_context\n"
+    X16(LDZ, "r12")
+    " mov %r14, %rdi\n call mcount_restore_arch_context\n"
+    X16(STZ, "r13")
+    " vzeroupper\n"
+    " pop %rbp\n pop %r14\n pop %r13\n pop %r12\n pop %rbx\n ret\n"
+    " .size zmm_roundtrip, .-zmm_roundtrip\n");
+unsigned long call_with_zmm(const uint64_t *before, uint64_t *after, void *fn, long a1, long a2, long a3);
+asm(".text\n .globl call_with_zmm\n .type call_with_zmm,@function\n call_with_zmm:\n"
+    " push %rbx\n push %r12\n push %r13\n push %r14\n push %rbp\n"
+    " mov %rdi, %rbx\n mov %rsi, %r12\n mov %rdx, %r13\n"
+    " mov %rcx, %rdi\n mov %r8, %rsi\n mov %r9, %rdx\n"
+    X16(LDZ, "rbx")
+    " call *%r13\n"
+    X16(STZ, "r12")
+    " vzeroupper\n"
+    " pop %rbp\n pop %r14\n pop %r13\n pop %r12\n pop %rbx\n ret\n"
+    " .size call_with_zmm, .-call_with_zmm\n");
+
+/* 0: xmm only, 1: AVX, 2: AVX-512F */
+static int vec_level(void)
+{
+	if (__builtin_cpu_supports("avx512f"))
+		return 2;
+	return __builtin_cpu_supports("avx") ? 1 : 0;
+}
+
+/* registers are passed around as 16 x 8 words; narrower machines use the low words (words above the
+ * vector length read as 0 after a VEX load; on an xmm-only machine they do not exist: reported as 0) */
+static void pack(const uint64_t *full, uint64_t *narrow, int nw)
+{
+	int r, i;
+	for (r = 0; r < 16; r++)
+		for (i = 0; i < nw; i++)
+			narrow[r * nw + i] = full[r * 8 + i];
+}
+static void unpack(const uint64_t *narrow, uint64_t *full, int nw)
+{
+	int r, i;
+	for (r = 0; r < 16; r++)
+		for (i = 0; i < 8; i++)
+			full[r * 8 + i] = i < nw ? narrow[r * nw + i] : 0;
+}
+static void vec_roundtrip(int level, const uint64_t *before, const uint64_t *clobber, uint64_t *after, void *ctx)
+{
+	static __thread uint64_t b[128], c[128], a[128];
+	int nw = level == 2 ? 8 : level == 1 ? 4 : 2;
+	pack(before, b, nw);
+	pack(clobber, c, nw);
+	if (level == 2)
+		zmm_roundtrip(b, c, a, ctx);
+	else if (level == 1)
+		ymm_roundtrip(b, c, a, ctx);
+	else
+		xmm_roundtrip(b, c, a, ctx);
+	unpack(a, after, nw);
+	if (level == 0) { /* legacy loads leave the (non-existing) upper words alone: echo the clobber */
+		int r, i;
+		for (r = 0; r < 16; r++)
+			for (i = 2; i < 8; i++)
+				after[r * 8 + i] = clobber[r * 8 + i];
+	}
+}
+static unsigned long vec_call(int level, const uint64_t *before, uint64_t *after, void *fn, long a1, long a2, long a3)
+{
+	static __thread uint64_t b[128], a[128];
+	int nw = level == 2 ? 8 : level == 1 ? 4 : 2;
+	unsigned long r;
+	pack(before, b, nw);
+	memset(a, 0xee, sizeof(a));
+	if (level == 2)
+		r = call_with_zmm(b, a, fn, a1, a2, a3);
+	else if (level == 1)
+		r = call_with_ymm(b, a, fn, a1, a2, a3);
+	else
+		r = call_with_xmm(b, a, fn, a1, a2, a3);
+	unpack(a, after, nw);
+	return r;
+}
+
+/* the same with ymm0..15 (4 words each); only used when the CPU has AVX */
+unsigned long call_with_ymm(const uint64_t *before, uint64_t *after, void *fn, long a1, long a2, long a3);
+asm(".text\n .globl call_with_ymm\n .type call_with_ymm,@function\n call_with_ymm:\n"
+    " push %rbx\n push %r12\n push %r13\n push %r14\n push %rbp\n"
+    " mov %rdi, %rbx\n mov %rsi, %r12\n mov %rdx, %r13\n"
+    " mov %rcx, %rdi\n mov %r8, %rsi\n mov %r9, %rdx\n"
+    X16(LDY, "rbx")
+    " call *%r13\n"
+    X16(STY, "r12")
+    " vzeroupper\n"
+    " pop %rbp\n pop %r14\n pop %r13\n pop %r12\n pop %rbx\n ret\n"
+    " .size call_with_ymm, .-call_with_ymm\n");
+
 static void read_words(char *p, uint64_t *w, int n)
 {
 	int i;
@@ -208,36 +330,21 @@ static void snap(void)
 	printf(" | %d", mtd.idx);
 	pword(mtd.cygprof_dummy);
 	for (i = 1; i < nshow; i++)
-		pword(slots[i]);
+		pword(*SLOT(i));
 	printf("\n");
 }
 
-int main(int argc, char **argv)
+static void do_op(char *line)
 {
-	static char line[1 << 15];
+	char op[8] = "";
+	int k = 0;
+	unsigned long s = 0, v = 0;
 
-	if (argc > 1)
-		nshow = atoi(argv[1]);
-	if (nshow > NSLOT)
-		nshow = NSLOT;
-	setvbuf(stdout, NULL, _IOFBF, 1 << 16);
-#ifdef C01_WITH_PLT
-	setup_fake_module();
-#endif
-	fake_on = 1;
-	while (fgets(line, sizeof line, stdin)) {
-		char op[8] = "";
-		int k = 0;
-		unsigned long s = 0, v = 0;
-
-		if (line[0] == '#' || line[0] == '\n')
-			continue;
-		sscanf(line, "%7s", op);
-		if (!strcmp(op, "QUIT"))
-			break;
+	sscanf(line, "%7s", op);
+	{
 		if (!strcmp(op, "P")) {
 			sscanf(line, "%*s %lu %lu", &s, &v);
-			slots[s % NSLOT] = v;
+			*SLOT(s) = v;
 			printf("P");
 		}
 		else if (!strcmp(op, "N")) {
@@ -258,7 +365,7 @@ int main(int argc, char **argv)
 			sscanf(line, "%*s %d %lu", &k, &s);
 			memset(&regs, 0, sizeof(regs));
 			errno = 77;
-			r = mcount_entry(&slots[s % NSLOT], (unsigned long)funcs[k % NFUNC] + 4, &regs);
+			r = mcount_entry(SLOT(s), (unsigned long)funcs[k % NFUNC] + 4, &regs);
 			printf("E %d %d", r, errno == 77);
 		}
 #ifdef C01_WITH_PLT
@@ -268,7 +375,7 @@ int main(int argc, char **argv)
 			sscanf(line, "%*s %d %lu", &k, &s);
 			memset(&regs, 0, sizeof(regs));
 			errno = 88;
-			r = plthook_entry(&slots[s % NSLOT], (unsigned long)(k % NFUNC), FAKE_MODULE_ID, &regs);
+			r = plthook_entry(SLOT(s), (unsigned long)(k % NFUNC), FAKE_MODULE_ID, &regs);
 			printf("PE %d %d", r != 0, errno == 88);
 		}
 #endif
@@ -286,9 +393,10 @@ int main(int argc, char **argv)
 			int n = 0, ok = 1;
 			sscanf(line, "%*s %lu", &s);
 			s %= NSLOT;
+			unsigned long *sl = SLOT(s);
 			while (n < 100000) {
-				int is_m = mcount_return_fn && slots[s] == mcount_return_fn;
-				int is_p = slots[s] == (unsigned long)plthook_return;
+				int is_m = mcount_return_fn && (*sl) == mcount_return_fn;
+				int is_p = (*sl) == (unsigned long)plthook_return;
 				if (!is_m && !is_p)
 					break;
 				if (mtd.idx <= 0)
@@ -296,16 +404,16 @@ int main(int argc, char **argv)
 				errno = 55;
 #ifdef C01_WITH_PLT
 				if (is_p)
-					slots[s] = plthook_exit(rv);
+					(*sl) = plthook_exit(rv);
 				else
 #endif
-					slots[s] = mcount_exit(rv);
+					(*sl) = mcount_exit(rv);
 				if (errno != 55)
 					ok = 0;
 				n++;
 			}
 			printf("R %d", n);
-			pword(slots[s]);
+			pword((*sl));
 			printf(" %d", ok);
 		}
 		else if (!strcmp(op, "XE")) {
@@ -352,36 +460,66 @@ int main(int argc, char **argv)
 			for (i = 0; i < 32; i++)
 				printf(" %llx", (unsigned long long)after[i]);
 		}
-		else if (!strcmp(op, "YMM")) {
-			static uint64_t before[64], clobber[64], after[64];
-			static uint64_t ctx[128] __attribute__((aligned(32)));
+		else if (!strcmp(op, "VE")) {
+			struct mcount_regs regs;
+			static __thread uint64_t before[128], after[128];
+			int r, i, e, level = vec_level();
+			strtok(line, " ");
+			k = atoi(strtok(NULL, " "));
+			s = strtoul(strtok(NULL, " "), NULL, 10);
+			read_words(strtok(NULL, "\n"), before, 128);
+			memset(&regs, 0, sizeof(regs));
+			clobber_xmm = 1 + level;
+			errno = 77;
+			r = (int)vec_call(level, before, after, (void *)mcount_entry, (long)SLOT(s),
+					  (long)funcs[k % NFUNC] + 4, (long)&regs);
+			e = errno;
+			clobber_xmm = 0;
+			printf("VE %d %d %d", level, r, e == 77);
+			for (i = 0; i < 128; i++)
+				printf(" %llx", (unsigned long long)after[i]);
+		}
+		else if (!strcmp(op, "VR")) {
+			long rv[4] = { 42, 43, 0, 0 };
+			static __thread uint64_t before[128], after[128];
+			unsigned long *sl;
+			int n = 0, ok = 1, i, level = vec_level();
+			strtok(line, " ");
+			s = strtoul(strtok(NULL, " "), NULL, 10) % NSLOT;
+			sl = SLOT(s);
+			read_words(strtok(NULL, "\n"), before, 128);
+			memcpy(after, before, sizeof(after));
+			while (mcount_return_fn && *sl == mcount_return_fn && mtd.idx > 0 && n < 100000) {
+				clobber_xmm = 1 + level;
+				errno = 55;
+				*sl = vec_call(level, before, after, (void *)mcount_exit, (long)rv, 0, 0);
+				if (errno != 55)
+					ok = 0;
+				clobber_xmm = 0;
+				n++;
+			}
+			printf("VR %d %d", level, n);
+			pword(*sl);
+			printf(" %d", ok);
+			for (i = 0; i < 128; i++)
+				printf(" %llx", (unsigned long long)after[i]);
+		}
+		else if (!strcmp(op, "VEC")) {
+			static __thread uint64_t before[128], clobber[128], after[128];
+			static uint64_t ctx[256] __attribute__((aligned(64)));
 			char *p = line + 3;
-			int i, avx = __builtin_cpu_supports("avx");
-			for (i = 0; i < 128; i++) {
+			int i, level = vec_level();
+			for (i = 0; i < 256; i++) {
 				uint64_t w = strtoull(p, &p, 16);
-				if (i < 64)
+				if (i < 128)
 					before[i] = w;
 				else
-					clobber[i - 64] = w;
+					clobber[i - 128] = w;
 			}
 			memset(ctx, 0, sizeof(ctx));
-			memset(after, 0xee, sizeof(after));
-			if (avx)
-				ymm_roundtrip(before, clobber, after, ctx);
-			else {
-				uint64_t b[32], c[32], a[32];
-				for (i = 0; i < 16; i++) {
-					b[2 * i] = before[4 * i], b[2 * i + 1] = before[4 * i + 1];
-					c[2 * i] = clobber[4 * i], c[2 * i + 1] = clobber[4 * i + 1];
-				}
-				xmm_roundtrip(b, c, a, ctx);
-				for (i = 0; i < 16; i++) {
-					after[4 * i] = a[2 * i], after[4 * i + 1] = a[2 * i + 1];
-					after[4 * i + 2] = clobber[4 * i + 2], after[4 * i + 3] = clobber[4 * i + 3];
-				}
-			}
-			printf("YMM %d", avx ? 1 : 0);
-			for (i = 0; i < 64; i++)
+			vec_roundtrip(level, before, clobber, after, ctx);
+			printf("VEC %d", level);
+			for (i = 0; i < 128; i++)
 				printf(" %llx", (unsigned long long)after[i]);
 		}
 		else if (!strcmp(op, "XMM")) {
@@ -407,6 +545,86 @@ int main(int argc, char **argv)
 			printf("? %s", op);
 		}
 		snap();
+	}
+}
+
+/* worker threads: `T <n>` makes thread n (0 = the initial thread) execute the following operations */
+#include <pthread.h>
+#define NTHREAD 4
+static struct worker {
+	pthread_t th;
+	pthread_mutex_t mu;
+	pthread_cond_t cv;
+	char *line;
+	int done, alive;
+} workers[NTHREAD];
+
+static void *worker_main(void *arg)
+{
+	struct worker *w = arg;
+	pthread_mutex_lock(&w->mu);
+	for (;;) {
+		while (!w->line)
+			pthread_cond_wait(&w->cv, &w->mu);
+		do_op(w->line);
+		w->line = NULL;
+		w->done = 1;
+		pthread_cond_broadcast(&w->cv);
+	}
+	return NULL;
+}
+
+static void dispatch(int n, char *line)
+{
+	struct worker *w = &workers[n % NTHREAD];
+	if (n == 0) {
+		do_op(line);
+		return;
+	}
+	if (!w->alive) {
+		pthread_mutex_init(&w->mu, NULL);
+		pthread_cond_init(&w->cv, NULL);
+		w->alive = 1;
+		pthread_create(&w->th, NULL, worker_main, w);
+	}
+	pthread_mutex_lock(&w->mu);
+	w->done = 0;
+	w->line = line;
+	pthread_cond_broadcast(&w->cv);
+	while (!w->done)
+		pthread_cond_wait(&w->cv, &w->mu);
+	pthread_mutex_unlock(&w->mu);
+}
+
+int main(int argc, char **argv)
+{
+	static char line[1 << 16];
+	int cur = 0;
+
+	if (argc > 1)
+		nshow = atoi(argv[1]);
+	if (nshow > NSLOT)
+		nshow = NSLOT;
+	if (argc > 2 && !strcmp(argv[2], "rev"))
+		reversed = 1;
+	setvbuf(stdout, NULL, _IOFBF, 1 << 16);
+#ifdef C01_WITH_PLT
+	setup_fake_module();
+#endif
+	fake_on = 1;
+	while (fgets(line, sizeof line, stdin)) {
+		char op[8] = "";
+
+		if (line[0] == '#' || line[0] == '\n')
+			continue;
+		sscanf(line, "%7s", op);
+		if (!strcmp(op, "QUIT"))
+			break;
+		if (!strcmp(op, "T")) {
+			cur = atoi(line + 2);
+			continue;
+		}
+		dispatch(cur, line);
 	}
 	fflush(stdout);
 	_exit(0); /* skip libmcount's destructor */
